@@ -1,18 +1,31 @@
 use core::fmt;
+use core::mem::{ManuallyDrop, MaybeUninit};
 use core::ops::Index;
 
 use crate::{overflow, DefaultHashBuilder, Equivalent, CAP};
 
+/// Invariant: `slots[..len]` are initialised, `slots[len..]` are not.
 pub struct HashMap<K, V, S = DefaultHashBuilder> {
-   pub(crate) slots: [Option<(K, V)>; CAP],
+   pub(crate) slots: [MaybeUninit<(K, V)>; CAP],
    pub(crate) len: usize,
    pub(crate) hash_builder: S,
 }
 
 #[inline]
-fn empty_slots<K, V>() -> [Option<(K, V)>; CAP] {
+fn empty_slots<K, V>() -> [MaybeUninit<(K, V)>; CAP] {
    // no loop (`core::array::from_fn` would need CAP+1 unwindings in every harness)
-   [const { None }; CAP]
+   [const { MaybeUninit::uninit() }; CAP]
+}
+
+/// Drops exactly the live entries (a derived drop of `[Option<_>; CAP]` would be a loop of
+/// `CAP` iterations in every harness, with a deallocation path per slot).
+impl<K, V, S> Drop for HashMap<K, V, S> {
+   #[inline]
+   fn drop(&mut self) {
+      if core::mem::needs_drop::<(K, V)>() {
+         self.clear();
+      }
+   }
 }
 
 impl<K, V, S: Default> Default for HashMap<K, V, S> {
@@ -47,12 +60,15 @@ impl<K, V, S> HashMap<K, V, S> {
    pub fn shrink_to_fit(&mut self) {}
 
    pub fn clear(&mut self) {
-      let mut i = 0;
-      while i < self.len {
-         self.slots[i] = None;
-         i += 1;
-      }
+      let len = self.len;
       self.len = 0;
+      if core::mem::needs_drop::<(K, V)>() {
+         let mut i = 0;
+         while i < len {
+            unsafe { self.slots[i].assume_init_drop() };
+            i += 1;
+         }
+      }
    }
 
    #[inline]
@@ -75,9 +91,9 @@ impl<K, V, S> HashMap<K, V, S> {
    pub fn retain<F: FnMut(&K, &mut V) -> bool>(&mut self, mut f: F) {
       let mut i = 0;
       while i < self.len {
-         let keep = match &mut self.slots[i] {
-            Some((k, v)) => f(k, v),
-            None => true,
+         let keep = {
+            let (k, v) = self.entry_at_mut(i);
+            f(&*k, v)
          };
          if keep {
             i += 1;
@@ -91,15 +107,12 @@ impl<K, V, S> HashMap<K, V, S> {
    #[inline]
    pub(crate) fn remove_at(&mut self, i: usize) -> (K, V) {
       let last = self.len - 1;
-      let removed = self.slots[i].take();
+      let removed = unsafe { self.slots[i].assume_init_read() };
       if i != last {
-         self.slots[i] = self.slots[last].take();
+         self.slots[i] = MaybeUninit::new(unsafe { self.slots[last].assume_init_read() });
       }
       self.len = last;
-      match removed {
-         Some(kv) => kv,
-         None => unreachable!(),
-      }
+      removed
    }
 
    #[inline]
@@ -108,25 +121,23 @@ impl<K, V, S> HashMap<K, V, S> {
       if i >= CAP {
          overflow()
       }
-      self.slots[i] = Some((k, v));
+      self.slots[i] = MaybeUninit::new((k, v));
       self.len = i + 1;
       i
    }
 
    #[inline]
    pub(crate) fn entry_at(&self, i: usize) -> (&K, &V) {
-      match &self.slots[i] {
-         Some((k, v)) => (k, v),
-         None => unreachable!(),
-      }
+      debug_assert!(i < self.len);
+      let kv = unsafe { self.slots[i].assume_init_ref() };
+      (&kv.0, &kv.1)
    }
 
    #[inline]
    pub(crate) fn entry_at_mut(&mut self, i: usize) -> (&mut K, &mut V) {
-      match &mut self.slots[i] {
-         Some((k, v)) => (k, v),
-         None => unreachable!(),
-      }
+      debug_assert!(i < self.len);
+      let kv = unsafe { self.slots[i].assume_init_mut() };
+      (&mut kv.0, &mut kv.1)
    }
 
    #[inline]
@@ -145,10 +156,8 @@ impl<K, V, S> HashMap<K, V, S> {
    pub(crate) fn find<Q: ?Sized + Equivalent<K>>(&self, q: &Q) -> Option<usize> {
       let mut i = 0;
       while i < self.len {
-         if let Some((k, _)) = &self.slots[i] {
-            if q.equivalent(k) {
-               return Some(i);
-            }
+         if q.equivalent(unsafe { &self.slots[i].assume_init_ref().0 }) {
+            return Some(i);
          }
          i += 1;
       }
@@ -405,7 +414,7 @@ impl<'a, K, V, S> RawVacantEntryMut<'a, K, V, S> {
 // ---------------------------------------------------------------- iterators
 
 pub struct Iter<'a, K, V> {
-   inner: core::slice::Iter<'a, Option<(K, V)>>,
+   inner: core::slice::Iter<'a, MaybeUninit<(K, V)>>,
 }
 
 impl<K, V> Clone for Iter<'_, K, V> {
@@ -418,8 +427,11 @@ impl<'a, K, V> Iterator for Iter<'a, K, V> {
    #[inline]
    fn next(&mut self) -> Option<Self::Item> {
       match self.inner.next() {
-         Some(Some((k, v))) => Some((k, v)),
-         _ => None,
+         Some(slot) => {
+            let kv = unsafe { slot.assume_init_ref() };
+            Some((&kv.0, &kv.1))
+         },
+         None => None,
       }
    }
    #[inline]
@@ -428,7 +440,7 @@ impl<'a, K, V> Iterator for Iter<'a, K, V> {
 impl<K, V> ExactSizeIterator for Iter<'_, K, V> {}
 
 pub struct IterMut<'a, K, V> {
-   inner: core::slice::IterMut<'a, Option<(K, V)>>,
+   inner: core::slice::IterMut<'a, MaybeUninit<(K, V)>>,
 }
 
 impl<'a, K, V> Iterator for IterMut<'a, K, V> {
@@ -436,8 +448,11 @@ impl<'a, K, V> Iterator for IterMut<'a, K, V> {
    #[inline]
    fn next(&mut self) -> Option<Self::Item> {
       match self.inner.next() {
-         Some(Some((k, v))) => Some((&*k, v)),
-         _ => None,
+         Some(slot) => {
+            let kv = unsafe { slot.assume_init_mut() };
+            Some((&kv.0, &mut kv.1))
+         },
+         None => None,
       }
    }
    #[inline]
@@ -506,7 +521,7 @@ impl<'a, K, V> Iterator for ValuesMut<'a, K, V> {
 /// Draining iterator: the map is already empty (`len == 0`) while this exists; entries not
 /// yielded are dropped with the iterator.
 pub struct Drain<'a, K, V> {
-   slots: &'a mut [Option<(K, V)>; CAP],
+   slots: &'a mut [MaybeUninit<(K, V)>; CAP],
    idx: usize,
    len: usize,
 }
@@ -516,9 +531,9 @@ impl<K, V> Iterator for Drain<'_, K, V> {
    #[inline]
    fn next(&mut self) -> Option<(K, V)> {
       if self.idx < self.len {
-         let r = self.slots[self.idx].take();
+         let r = unsafe { self.slots[self.idx].assume_init_read() };
          self.idx += 1;
-         r
+         Some(r)
       } else {
          None
       }
@@ -530,17 +545,30 @@ impl<K, V> ExactSizeIterator for Drain<'_, K, V> {}
 
 impl<K, V> Drop for Drain<'_, K, V> {
    fn drop(&mut self) {
-      while self.idx < self.len {
-         self.slots[self.idx] = None;
-         self.idx += 1;
+      if core::mem::needs_drop::<(K, V)>() {
+         while self.idx < self.len {
+            unsafe { self.slots[self.idx].assume_init_drop() };
+            self.idx += 1;
+         }
       }
    }
 }
 
 pub struct IntoIter<K, V> {
-   slots: [Option<(K, V)>; CAP],
+   slots: [MaybeUninit<(K, V)>; CAP],
    idx: usize,
    len: usize,
+}
+
+impl<K, V> Drop for IntoIter<K, V> {
+   fn drop(&mut self) {
+      if core::mem::needs_drop::<(K, V)>() {
+         while self.idx < self.len {
+            unsafe { self.slots[self.idx].assume_init_drop() };
+            self.idx += 1;
+         }
+      }
+   }
 }
 
 impl<K, V> Iterator for IntoIter<K, V> {
@@ -548,9 +576,9 @@ impl<K, V> Iterator for IntoIter<K, V> {
    #[inline]
    fn next(&mut self) -> Option<(K, V)> {
       if self.idx < self.len {
-         let r = self.slots[self.idx].take();
+         let r = unsafe { self.slots[self.idx].assume_init_read() };
          self.idx += 1;
-         r
+         Some(r)
       } else {
          None
       }
@@ -564,7 +592,11 @@ impl<K, V, S> IntoIterator for HashMap<K, V, S> {
    type Item = (K, V);
    type IntoIter = IntoIter<K, V>;
    #[inline]
-   fn into_iter(self) -> IntoIter<K, V> { IntoIter { slots: self.slots, idx: 0, len: self.len } }
+   fn into_iter(self) -> IntoIter<K, V> {
+      let mut this = ManuallyDrop::new(self);
+      unsafe { core::ptr::drop_in_place(&mut this.hash_builder) };
+      IntoIter { slots: unsafe { core::ptr::read(&this.slots) }, idx: 0, len: this.len }
+   }
 }
 
 impl<'a, K, V, S> IntoIterator for &'a HashMap<K, V, S> {
@@ -588,10 +620,11 @@ impl<K: Clone, V: Clone, S: Clone> Clone for HashMap<K, V, S> {
       let mut res = Self::with_hasher(self.hash_builder.clone());
       let mut i = 0;
       while i < self.len {
-         res.slots[i] = self.slots[i].clone();
+         let (k, v) = self.entry_at(i);
+         res.slots[i] = MaybeUninit::new((k.clone(), v.clone()));
+         res.len = i + 1;
          i += 1;
       }
-      res.len = self.len;
       res
    }
 }
